@@ -7,6 +7,7 @@ import (
 	"runtime"
 
 	netty "github.com/go-netty/go-netty"
+	"github.com/go-netty/go-netty/codec/format"
 	"github.com/go-netty/go-netty/utils"
 	"github.com/go-netty/go-netty/verifsim/simnet"
 	"github.com/go-netty/go-netty/verifsim/simrt"
@@ -79,6 +80,8 @@ func (s *strictSink) HandleRead(ctx netty.InboundContext, msg netty.Message) {
 		}
 	case []byte:
 		s.add(append([]byte(nil), m...), nil)
+	case string:
+		s.add([]byte(m), nil)
 	default:
 		s.add(nil, fmt.Errorf("unexpected message type %T", msg))
 	}
@@ -160,12 +163,17 @@ func runC08(e *Env) {
 	rig := e.NewRig(ChanCfg{}, false)
 	rig.Conn.Frag = e.P(4)
 	refFrames, _ := spec.RefDecode(stream)
-	sink := &strictSink{env: e, conn: rig.Conn, Limit: len(refFrames) + 3, Mode: e.P(4)}
+	sink := &strictSink{env: e, conn: rig.Conn, Limit: len(refFrames) + 3, Mode: e.P(5)}
 	pl := netty.NewPipeline()
-	pl.AddLast(spec.Codec(), sink)
+	if sink.Mode == 4 {
+		// the shipped text codec consumes the frames; the sink receives strings
+		pl.AddLast(spec.Codec(), format.TextCodec(), sink)
+	} else {
+		pl.AddLast(spec.Codec(), sink)
+	}
 	ch := netty.NewChannel()(1, rig.Ctx, pl, rig.Conn, rig.X)
 	sink.ch = ch
-	e.Describe("decoder=%s stream: %s (%d bytes, %d complete frames per reference decoder), ends with %s, read fragmentation mode %d, downstream consumes frames via %s", spec, desc, len(stream), len(refFrames), endName, rig.Conn.Frag, []string{"io.ReadAll", "utils.ToBytes", "io.Copy", "5-byte Reads"}[sink.Mode])
+	e.Describe("decoder=%s stream: %s (%d bytes, %d complete frames per reference decoder), ends with %s, read fragmentation mode %d, downstream consumes frames via %s", spec, desc, len(stream), len(refFrames), endName, rig.Conn.Frag, []string{"io.ReadAll", "utils.ToBytes", "io.Copy", "5-byte Reads", "the text codec"}[sink.Mode])
 	e.Go("main", func() {
 		pl.ServeChannel(ch)
 		e.Go("peer", func() {
@@ -306,6 +314,19 @@ func mutateStream(e *Env, s *FrameSpec, stream []byte, bounds []int) []byte {
 		// over-long varint
 		long := bytes.Repeat([]byte{0xFF}, 9+e.P(4))
 		long = append(long, 0x01)
+		if e.P(2) == 1 {
+			// ten-byte headers whose value overflows 64 bits: nine continuation bytes with few low bits set, then a
+			// tenth byte above 1
+			long = []byte{0x80 | byte(e.P(8))}
+			for i := 1; i < 9; i++ {
+				b := byte(0x80)
+				if e.P(8) == 7 {
+					b |= byte(e.P(8))
+				}
+				long = append(long, b)
+			}
+			long = append(long, byte(2+e.P(0x7e)))
+		}
 		out = append(append(append([]byte(nil), out[:start]...), long...), out[start:]...)
 	case fkDelimiter:
 		// no delimiter within the maximum frame length
